@@ -11,7 +11,7 @@ PAIR_TOKENS = ['+', '-', '*', '/', '%', '&', '|', '^', '~', '!', '<', '>', '=', 
                'a', '1', '1.', '.5', '1e', '0x1e', '"s"', "'c'", 'L', 'u8', 'R', 'return', 'case', 'sizeof', '0x1', '1u']
 
 
-def judge(x, lang, assign):
+def judge(x, lang, assign, strict=False):
     """Format x with the assignment; -> (status, violations, notes, changed)."""
     K = cfggen.text(assign)
     a = fmt.fmt(x, lang, K, dump=True)
@@ -24,7 +24,7 @@ def judge(x, lang, assign):
         if b.res.status not in (0, None) or b.res.signal:
             return ('ok', [('output-rejected', 'second pass refuses the output', 'output of an accepted input is not accepted (%s)' % b.res.how())], [], True)
         return ('nodump', [], [], False)
-    v, notes = tokoracle.compare(x, a.out, lang, a.dump['T'], b.dump['T'])
+    v, notes = tokoracle.compare(x, a.out, lang, a.dump['T'], b.dump['T'], strict=strict)
     return ('ok', v, notes, a.out != x)
 
 
@@ -57,13 +57,14 @@ def _case(t):
         # how such garbage is to be lexed is not defined by any language rule
         if not tokoracle.well_lexed(lex.lex(x, lang)) or b'asm' in x or b'INDENT-O' in x:
             return (cid, 'unclean-mutant', [], [], False, None)
-    status, v, notes, changed = judge(x, lang, assign)
+    strict = cid.startswith('bsblank:')       # these inputs are read by the strict phase-2 rule (as uncrustify reads them)
+    status, v, notes, changed = judge(x, lang, assign, strict)
     out = []
     for kind, locus, detail in v:
         small = assign
         if do_min and len(assign) >= 1:
             def pred(sub, kind=kind):
-                st, vv, _, _ = judge(x, lang, sub)
+                st, vv, _, _ = judge(x, lang, sub, strict)
                 return any(k == kind for k, _, _ in vv)
             small = minimise.minimise_cfg(assign, pred, max_runs=40)
         out.append((kind, locus, detail, small))
@@ -127,6 +128,13 @@ def check(ctx):
     for rel, lang, k in sr.sample(inj_u, 700 if quick else len(inj_u)):
         for n in (fixed_rng(PROP, 'injcfg:%s:%d' % (rel, k)).sample(sorted(combos), 3) if quick else sorted(combos)):
             tasks.append(('inject:%s:%d:%s' % (rel, k, n), ('inject', rel, k), lang, combos[n], True))
+    # '//' comments ending in backslash + blanks (no splice under the strict phase-2 rule): stripping the blanks would swallow the next line
+    for lang in ('C', 'CPP', 'OC'):
+        for bi, blanks in enumerate((b' ', b'\t', b'  \t ', b'   ')):
+            for ci, txt in enumerate((b'int a; // note \\%s\nint b = tbl[i & 3];\nint c;\n', b'// path C:\\dir\\%s\nvoid f(void)\n{\n   g(1); // x \\%s\n   h(2);\n}\n')):
+                src = txt.replace(b'%s', blanks)
+                for n in sorted(curated):
+                    tasks.append(('bsblank:%s:%d:%d:%s' % (lang, bi, ci, n), ('text', src), lang, curated[n], False))
     # pair table: every ordered pair of token classes, all sp_ options at remove / force
     pairs = pair_snippets('C') + pair_snippets('CPP')
     ctx.extra['pair_table'] = len(pairs)
